@@ -44,6 +44,45 @@ theorem pvalue_extremes (samples : List ℝ) (v : ℝ) :
     simp only [empiricalCounts]
     rw [List.filter_eq_self.mpr (fun s hs => by simpa using h s hs)]
 
+/-- the tail fraction does not depend on the order in which the toys were generated -/
+theorem pvalue_perm_invariant (samples samples' : List ℝ) (v : ℝ) (h : samples.Perm samples') :
+    empiricalCounts samples v = empiricalCounts samples' v := by
+  simp only [empiricalCounts, ← List.countP_eq_length_filter]
+  rw [h.countP_eq, h.length_eq]
+
+/-- toys generated in batches: numerators and denominators add -/
+theorem pvalue_batches (a b : List ℝ) (v : ℝ) :
+    empiricalCounts (a ++ b) v =
+      ((empiricalCounts a v).1 + (empiricalCounts b v).1, (empiricalCounts a v).2 + (empiricalCounts b v).2) := by
+  simp [empiricalCounts]
+
+/-- strictness: raising the observed value past a sample strictly lowers the numerator (`≥`, not `>`, on the lower side) -/
+theorem pvalue_strict_drop (samples : List ℝ) (v w s : ℝ) (hs : s ∈ samples) (h1 : v ≤ s) (h2 : s < w) :
+    (empiricalCounts samples w).1 < (empiricalCounts samples v).1 := by
+  simp only [empiricalCounts, ← List.countP_eq_length_filter]
+  induction samples with
+  | nil => cases hs
+  | cons x xs ih =>
+    have mono : List.countP (fun s => decide (w ≤ s)) xs ≤ List.countP (fun s => decide (v ≤ s)) xs := by
+      apply List.countP_mono_left
+      intro t _ ht
+      simp only [decide_eq_true_eq] at ht ⊢
+      linarith
+    rcases List.mem_cons.mp hs with rfl | hs'
+    · have hw : ¬ (w ≤ s) := not_le.mpr h2
+      simp only [List.countP_cons, h1, hw, decide_true, decide_false, if_true]
+      simp
+      omega
+    · have := ih hs'
+      simp only [List.countP_cons]
+      by_cases hx : w ≤ x
+      · have hv : v ≤ x := by linarith
+        simp [hx, hv]; omega
+      · by_cases hv : v ≤ x <;> simp [hx, hv] <;> omega
+
+example : (empiricalCounts [1, 2, 2, 3] (2.5 : ℝ)).1 < (empiricalCounts [1, 2, 2, 3] (2 : ℝ)).1 :=
+  pvalue_strict_drop _ _ _ 2 (by simp) (le_refl _) (by norm_num)
+
 /-- **toy wiring**: signal-like pseudo-data are generated at the conditional fit of the tested `μ`,
 background-like ones at the conditional fit of `μ = 0` (`μ = 1` for the discovery statistic) -/
 theorem toy_wiring (ts : TestStat) (poiTest : ℝ) :
